@@ -34,7 +34,7 @@ inductive Atom where
   | none
   | enum (s : String)          -- printed as `'s'` by the enum's own `__repr__`
   | rule (r : Rule)            -- a rule: printed as `Rule.create('text')`
-  | opaque (what : String)     -- a value without constructor-argument form (engine reference, run-time state)
+  | other (what : String)      -- a value without constructor-argument form (engine reference, run-time state)
 deriving DecidableEq, Repr, Inhabited
 
 inductive VKind where
@@ -95,8 +95,8 @@ def payloadVal (kind payload : String) : Option Val :=
   | "list" => some (.node .list [])
   | "dict" => some (.node (.dict []) [])
   | "array" => some (.node .array [])
-  | "obj" => some (.atom (.opaque payload))
-  | "other" => some (.atom (.opaque payload))
+  | "obj" => some (.atom (.other payload))
+  | "other" => some (.atom (.other payload))
   | _ => none
 
 def paramsOf (cls : String) : Option (List Param) :=
@@ -143,12 +143,6 @@ def emit {β : Type} (fields : String → Option β) : Bool → List Param → O
     | some v => (emit fields positional ps).map (fun as => ((if positional then none else some p.name), v) :: as)
     | none => if p.hasDefault then emit fields false ps else none
 
-/-- does the value equal the constructor default (structural equality of the trees) -/
-partial def valBEq : Val → Val → Bool
-  | .atom a, .atom b => a == b
-  | .node k ks, .node k' ks' => k == k' && ks.length == ks'.length && (ks.zip ks').all (fun (a, b) => valBEq a b)
-  | _, _ => false
-
 /-- the conditions under which the `__repr__` overrides drop a field: equal to the default (the overrides test
     `not description`, `enabled`, `resolution == default_resolution`, `type == Automatic`, `not variables`), or a
     height within the tolerance of 1 -/
@@ -163,17 +157,20 @@ def dropHolds (env : Env) (dflt : Option Val) : DropKind → Val → Bool
 
 def defaultOf (ps : List Param) (n : String) : Option Val := (ps.find? (·.name = n)).bind (·.stored)
 
-/-- the names a `__repr__` passes on -/
-def keptNames (env : Env) (ps : List Param) (info : ReprInfo) (fields : List (String × Val)) : List String :=
-  (fields.filter (fun (n, v) =>
-    !(info.always.contains n) &&
-    !(match info.cond.lookup n with
-      | some k => dropHolds env (defaultOf ps n) k v
-      | none => false))).map (·.1)
+/-- does the `__repr__` override remove the field `n` (holding `v`) from the fields it passes on -/
+def dropped (env : Env) (ps : List Param) (info : ReprInfo) (n : String) (v : Val) : Bool :=
+  info.always.contains n ||
+    (match info.cond.lookup n with
+     | some k => dropHolds env (defaultOf ps n) k v
+     | none => false)
+
+/-- the `fields` dictionary given to `construction_arguments`, as a lookup -/
+def passed (env : Env) (ps : List Param) (info : ReprInfo) (fields : List (String × Val)) (n : String) : Option Val :=
+  (fields.lookup n).bind (fun v => if dropped env ps info n v then none else some v)
 
 def litSrc (env : Env) : Atom → SAtom
   | .rule r => .rule (classPrefix env "Rule") (ruleToks (keepHeight env.cfg) env.cfg r)
-  | .opaque _ => .invalid
+  | .other _ => .invalid
   | a => .lit (settingsPrefix env) a
 
 mutual
@@ -189,9 +186,9 @@ def asConstructor (env : Env) : Val → Src
     | .obj cls names =>
       match paramsOf cls, reprInfoOf cls with
       | some ps, some info =>
-        let keep := keptNames env ps info (names.zip kids)
         if info.cond.any (fun c => c.2 == .unknown) then .atom .invalid else
-        match emit (fun n => if keep.contains n then (names.zip ks).lookup n else none) info.positional ps with
+        match emit (fun n => if (passed env ps info (names.zip kids) n).isSome then (names.zip ks).lookup n else none)
+            info.positional ps with
         | some args => .node (.call (classPrefix env cls) cls (args.map (·.1))) (args.map (·.2))
         | none => .atom .invalid
       | _, _ => .atom .invalid
@@ -202,12 +199,17 @@ end
 
 /-! ### evaluating a call -/
 
-/-- keyword phase of Python's binding: by name, else the default (stored value), else an error; parameters that
-    the constructor does not store are skipped -/
+def lookupKw {β : Type} (n : String) : List (Option String × β) → Option β
+  | [] => none
+  | (some m, v) :: as => if m = n then some v else lookupKw n as
+  | (none, _) :: as => lookupKw n as
+
+/-- keyword phase of Python's binding: by name, else the default (the value `Class()` stores), else an error;
+    parameters that the constructor does not store under their name are skipped -/
 def bindKw {β : Type} (dflt : Param → Option β) (args : List (Option String × β)) : List Param → Option (List (String × β))
   | [] => some []
   | p :: ps =>
-    match (args.find? (fun a => a.1 = some p.name)).map (·.2) with
+    match lookupKw p.name args with
     | some v => (bindKw dflt args ps).map (fun env => (p.name, v) :: env)
     | none =>
       match dflt p with
@@ -254,6 +256,17 @@ end
 
 /-! ### the object the evaluation is expected to build -/
 
+/-- for every parameter the constructor stores: the field that was passed on, else the constructor default -/
+def expected {β : Type} (fields : String → Option β) (dflt : Param → Option β) : List Param → Option (List (String × β))
+  | [] => some []
+  | p :: ps =>
+    match fields p.name with
+    | some v => (expected fields dflt ps).map (fun env => (p.name, v) :: env)
+    | none =>
+      match dflt p with
+      | some d => (expected fields dflt ps).map (fun env => (p.name, d) :: env)
+      | none => if p.hasDefault then expected fields dflt ps else none
+
 mutual
 /-- fields the `__repr__` dropped are replaced by the constructor default; rules go through one FLL cycle -/
 def view (env : Env) : Val → Val
@@ -265,12 +278,10 @@ def view (env : Env) : Val → Val
     | .obj cls names =>
       match paramsOf cls, reprInfoOf cls with
       | some ps, some info =>
-        let keep := keptNames env ps info (names.zip kids)
-        let stored := ps.filterMap (fun p =>
-          match (if keep.contains p.name then (names.zip vs).lookup p.name else none) with
-          | some v => some (p.name, v)
-          | none => p.stored.map (fun d => (p.name, d)))
-        .node (.obj cls (stored.map (·.1))) (stored.map (·.2))
+        match expected (fun n => if (passed env ps info (names.zip kids) n).isSome then (names.zip vs).lookup n else none)
+            (fun p => p.stored) ps with
+        | some bound => .node (.obj cls (bound.map (·.1))) (bound.map (·.2))
+        | none => .node k vs
       | _, _ => .node k vs
     | _ => .node k vs
 def viewList (env : Env) : List Val → List Val
